@@ -59,4 +59,6 @@ MUTANTS = [
         access_mode = BscOpenFlags.O_RDONLY
     call_flags = [access_mode]
 """),
+    F("C11", "member value taken from the host's socket module", B, "    MSG_PEEK = 0x2\n", "    MSG_PEEK = socket.MSG_PEEK\n", "R1"),
+    N("C11", "member value written as a shift", B, "    MSG_PEEK = 0x2\n", "    MSG_PEEK = 1 << 1\n"),
 ]
